@@ -138,6 +138,48 @@ pub(crate) fn c03_frame_future_poll_contract() {
     kani::cover!(true);
 }
 
+/// An inner future that never completes and records (as a SCOPE mark) the moment it is dropped.
+struct DropMark<'a> {
+    c: &'a OracleCtxt,
+}
+impl<'a> Future for DropMark<'a> {
+    type Output = u8;
+    fn poll(self: Pin<&mut Self>, _: &mut Context<'_>) -> Poll<u8> {
+        Poll::Pending
+    }
+}
+impl<'a> Drop for DropMark<'a> {
+    fn drop(&mut self) {
+        self.c.mark();
+    }
+}
+
+/// A FrameFuture dropped before it completes (a cancelled async span) - polled once or not at all - drops its
+/// inner future INSIDE the frame: enter, <inner drop>, exit, and only then close; each once, in that order.
+#[cfg_attr(kani, kani::proof)]
+#[cfg_attr(kani, kani::unwind(12))]
+pub(crate) fn c03_frame_future_drop_contract() {
+    let c = OracleCtxt::new(kani::any(), kani::any());
+    let polled: bool = kani::any();
+    {
+        let mut fut = Frame::root(&c, emit::Empty).in_future(DropMark { c: &c });
+        if polled {
+            let mut cx = Context::from_waker(core::task::Waker::noop());
+            let mut pinned = unsafe { Pin::new_unchecked(&mut fut) };
+            assert!(pinned.as_mut().poll(&mut cx).is_pending());
+            expect(&c, &[OPEN, ENTER, EXIT]);
+        } else {
+            expect(&c, &[OPEN]);
+        }
+    }
+    if polled {
+        expect(&c, &[OPEN, ENTER, EXIT, ENTER, SCOPE, EXIT, CLOSE]);
+    } else {
+        expect(&c, &[OPEN, ENTER, SCOPE, EXIT, CLOSE]);
+    }
+    kani::cover!(true);
+}
+
 fn drive<C: Ctxt>(c: C) -> Option<u64> {
     let mut f = c.open_root(emit::Empty);
     c.enter(&mut f);
